@@ -9,6 +9,8 @@ Definition F := ids_facts_of sk_init sk_cleanup sk_ids_ctor sk_ids_dtor sk_ids_d
 
 Lemma gen_ok : cmdline_consts_ok C = true.
 Proof. vm_compute. reflexivity. Qed.
+Lemma unknown_ok : cmdline_unknown_ok C = true.
+Proof. vm_compute. reflexivity. Qed.
 Lemma facts_ok : ids_facts_ok F = true.
 Proof. vm_compute. reflexivity. Qed.
 Lemma sep_space : sep C = [SP].
@@ -22,6 +24,16 @@ Proof. intros sz f a0 args H. rewrite (cmdline_join C sz f a0 args H). now rewri
 (** missing or empty argument vector: fall back to the path *)
 Theorem C06_fallback : forall sz f, cmdline C (Some f) None sz = takeN (sz - 1) f /\ cmdline C (Some f) (Some []) sz = takeN (sz - 1) f.
 Proof. exact (cmdline_fallback C). Qed.
+
+(** path and arguments both missing: a fixed non-empty text without conversion specifications, cut to the buffer *)
+Theorem C06_both_missing : forall sz, cmdline C None None sz = takeN (sz - 1) (unknown C) /\ cmdline C None (Some []) sz = takeN (sz - 1) (unknown C)
+    /\ unknown C <> [] /\ ~ In x25 (unknown C).
+Proof.
+  intros sz. split; [reflexivity|]. split; [reflexivity|]. pose proof unknown_ok as H. unfold cmdline_unknown_ok in H.
+  apply andb_prop in H. destruct H as [H1 H2]. split.
+  - intros E. rewrite E in H1. discriminate H1.
+  - intros Hin. rewrite forallb_forall in H2. specialize (H2 _ Hin). discriminate H2.
+Qed.
 
 Theorem C06_filename : forall sz f, filename_ds f sz = takeN (sz - 1) f.
 Proof. exact filename_prefix. Qed.
@@ -45,6 +57,7 @@ Proof. vm_compute. repeat split. Qed.
 
 Print Assumptions C06_cmdline_join.
 Print Assumptions C06_fallback.
+Print Assumptions C06_both_missing.
 Print Assumptions C06_filename.
 Print Assumptions C06_fits.
 Print Assumptions C06_no_leftover.
